@@ -253,6 +253,20 @@ def walk_under(fn_node, decide):
             v = env[t]
             return [(env, (not v) if neg else v)]
         d = decide(t, env, e) if getattr(decide, "wants_env", False) else decide(t)
+        if d is None and isinstance(e, ast.Compare) and len(e.ops) == 1 and isinstance(e.ops[0], (ast.Is, ast.IsNot)) \
+                and isinstance(e.left, ast.Name) and isinstance(e.comparators[0], ast.Name) and e.comparators[0].id.isupper() \
+                and e.comparators[0].id not in counts and e.left.id not in params:
+            # `x is _SENTINEL` (a module-level marker object): decided by what this execution last stored in x - the marker
+            # itself, or something looked up / computed, which is not the marker
+            _sts = env.get(STMTS, ())
+            for _s in reversed(_sts):
+                if isinstance(_s, ast.Assign) and len(_s.targets) == 1 and isinstance(_s.targets[0], ast.Name) and _s.targets[0].id == e.left.id:
+                    same_obj = isinstance(_s.value, ast.Name) and _s.value.id == e.comparators[0].id
+                    if same_obj or isinstance(_s.value, (ast.Subscript, ast.Call, ast.Attribute, ast.Constant)):
+                        d = same_obj        # value of the canonical atom `x is S`
+                    break
+                if any(isinstance(x, ast.Name) and x.id == e.left.id and isinstance(x.ctx, ast.Store) for x in ast.walk(_s)):
+                    break
         if d is None and isinstance(e, ast.Name) and not _in_flag:
             # a local that holds the outcome of a call-free test on this execution (`changed = a.x != b.x` ... `if changed:`,
             # the flag an inlined predicate helper leaves behind) is decided like that test
@@ -267,8 +281,14 @@ def walk_under(fn_node, decide):
                         if not (used & later):
                             pv = _s.value       # the test as written: the names it mentions still hold what they held then
                     break
-            if pv is not None and isinstance(pv, (ast.Compare, ast.BoolOp, ast.UnaryOp, ast.Attribute, ast.Constant, ast.Name)) \
-                    and not any(isinstance(x, (ast.Call, ast.Await, ast.Yield, ast.YieldFrom, ast.Lambda)) for x in ast.walk(pv)) \
+            def _pure(x):
+                # isinstance(<names>) is the one call a flag may hold: it has no effect and depends on its operands only
+                if isinstance(x, ast.Call):
+                    return isinstance(x.func, ast.Name) and x.func.id == "isinstance" and not x.keywords and \
+                        not any(isinstance(y, ast.Call) for a in x.args for y in ast.walk(a))
+                return not isinstance(x, (ast.Await, ast.Yield, ast.YieldFrom, ast.Lambda))
+            if pv is not None and isinstance(pv, (ast.Compare, ast.BoolOp, ast.UnaryOp, ast.Attribute, ast.Constant, ast.Name, ast.Call)) \
+                    and all(_pure(x) for x in ast.walk(pv)) \
                     and not any(isinstance(x, ast.Name) and x.id.startswith("$") for x in ast.walk(pv)) \
                     and not (isinstance(pv, ast.Name) and pv.id == e.id):
                 _in_flag.append(1)
